@@ -114,13 +114,17 @@ func (c *conn) Transport(ctx context.Context, request []byte) (response []byte, 
 		return nil, err
 	}
 	verifPoint("transport.afterStore")
+	// The send loop may still be writing the request when this call is given up (cancelled,
+	// timed out) and its caller takes the buffer back: send a private copy.
+	body := make([]byte, len(request))
+	copy(body, request)
 	select {
 	case <-ctx.Done():
 		c.delete(index)
 		return nil, ctx.Err()
 	case c.requests <- data{
 		Index: index,
-		Body:  request,
+		Body:  body,
 	}:
 	case res := <-resultChan:
 		return res.Body, res.Error
